@@ -586,8 +586,17 @@ pub fn run(s: &Scn, st: &mut Stats, check_structure: bool) -> Verdict {
     if case.op.starts_with("rx.") {
         let c0 = crate::ops_parse::RxCircuit { case: case.clone(), known: false };
         // the transition table (one row per transition and per final state) must fit too
-        let table_rows = match catch(|| crate::ops_parse::rx_of(case).to_lib().to_automaton()) {
-            Ok(a) => a.transitions.len() + a.final_states.len() + 1,
+        let table_rows = match catch(|| {
+            crate::ops_parse::rx_library(&crate::ops_parse::rx_of(case), case.p.get(1).copied().unwrap_or(0))
+                .1
+                .iter()
+                .map(|(_, x)| {
+                    let a = x.to_lib().to_automaton();
+                    a.transitions.len() + a.final_states.len() + 1
+                })
+                .sum::<usize>()
+        }) {
+            Ok(n) => n,
             Err(p) => return Verdict::Harness(format!("rx.parse: compiling the expression panicked at {}: {}", p.site(), p.msg)),
         };
         let k_min = (usize::BITS - (table_rows + 64).leading_zeros()).max(9);
